@@ -123,16 +123,23 @@ func (df *DictionaryFilter) extractElements(serializedArray []byte, values [][]b
 
 	if df.valueType == pbv1.ValueTypeStrArr {
 		// For each query value, check if it exists in the array
-		// UnmarshalVarArray modifies the source in-place for decoding
-		// This approach has zero allocations and early-exits on match
+		// UnmarshalVarArray decodes an escaped entry in place, and the stored
+		// dictionary value is shared by every later lookup: an array holding an
+		// escape is therefore scanned on a private copy, once per query value.
+		// Escape-free arrays are scanned without copying (zero allocations).
+		escaped := bytes.IndexByte(serializedArray, encoding.Escape) >= 0
 		for _, v := range values {
+			arr := serializedArray
+			if escaped {
+				arr = bytes.Clone(serializedArray)
+			}
 			found := false
-			for idx := 0; idx < len(serializedArray); {
-				end, next, err := encoding.UnmarshalVarArray(serializedArray, idx)
+			for idx := 0; idx < len(arr); {
+				end, next, err := encoding.UnmarshalVarArray(arr, idx)
 				if err != nil {
 					return false
 				}
-				if bytes.Equal(v, serializedArray[idx:end]) {
+				if bytes.Equal(v, arr[idx:end]) {
 					found = true
 					break
 				}
